@@ -312,14 +312,17 @@ static void List_Push(var self, var obj) {
 static void List_Push_At(var self, var obj, var key) {
   struct List* l = self;
   
+  /* find the position first: an index out of bounds must not cost a node */
+  int64_t i = c_int(key);
+  var curr = NULL;
+  if (i isnt 0) { curr = List_At(l, i); }
+  
   var item = List_Alloc(l);
   assign(item, obj);
   
-  int64_t i = c_int(key);
   if (i is 0) {
     List_Link(l, item, NULL, l->head);
   } else {
-    var curr = List_At(l, i);
     List_Link(l, item, *List_Prev(l, curr), curr);
   }
   l->nitems++;
